@@ -21,7 +21,10 @@ S1 = Svc(TA, "s1._a._tcp.local.", "h1.local.", 80, b"\x03a=b", [bytes([10, 0, 0,
 S2_SHARED = Svc(TA, "s2._a._tcp.local.", "h1.local.", 81, b"", [bytes([10, 0, 0, 1])], [])
 S2_OTHER = Svc("_b._tcp.local.", "s2._b._tcp.local.", "h2.local.", 81, b"", [bytes([10, 0, 0, 2])],
                [bytes.fromhex("fe800000000000000000000000000002")])
-SHAPES = {"one": [S1], "shared-host": [S1, S2_SHARED], "other-host": [S1, S2_OTHER]}
+# the same service registered with capitals in its names (queries and the oracle compare names case-insensitively)
+S1_CASED = Svc("_A._tcp.local.", "S1._A._tcp.local.", "H1.Local.", 80, b"\x03a=b", [bytes([10, 0, 0, 1])], [])
+SHAPES = {"one": [S1], "shared-host": [S1, S2_SHARED], "other-host": [S1, S2_OTHER], "cased": [S1_CASED],
+          "cased+other": [S1_CASED, S2_OTHER]}
 
 KINDS = ["qm-ptr", "qm-ptr+srv", "qm-srv", "qu-ptr", "legacy-ptr", "tc-ptr", "protected-ptr", "qm-a", "qm-any", "qm-burst"]
 OFFSETS = [1, 19, 21, 119, 121, 250, 399, 401, 499, 501, 999, 1001, 1199]
